@@ -251,8 +251,9 @@ def strategy(tier):
              "depth": st.sampled_from([10, 20]), "noisy": st.booleans(), "extra": st.lists(st.integers(0, 30), max_size=1),
              "gap": st.sampled_from([0, 0.1]), "cn_noise": st.sampled_from([0, 30, 60]), "seed": st.integers(0, 10 ** 6)}
         if g == "gen":
-            d["db"] = st.one_of(gen_db.db_specs(gaps=True, pseudo=True, force_sv=True, small=True, max_sites=6, max_alleles=6, dual_opposite=True),
-                                gen_db.db_specs(gaps=True, small=True, max_sites=6, max_alleles=6))
+            d["db"] = st.one_of(gen_db.db_specs(gaps=True, pseudo=True, force_sv=True, small=True, max_sites=6, max_alleles=6, dual_opposite=True,
+                                                kinds=gen_db.KINDS_ALL),
+                                gen_db.db_specs(gaps=True, small=True, max_sites=6, max_alleles=6, kinds=gen_db.KINDS_ALL))
         return st.fixed_dictionaries(d)
 
     table = st.sampled_from(["gen"] * 10 + small * 1 + ["cyp2d6"]).flatmap(table_for_gene)
